@@ -291,6 +291,38 @@ static void handle(int argc, char **argv) {
         } else if (rc == CIF_OK) OUT(" !NOPACKET");
         for (i = 0; i < n; i++) free(names[i]);
         free(names);
+    } else if (argc == 4 && !strcmp(argv[1], "allloops")) {
+        /* cif_container_get_all_loops on a block holding one loop per character of argv[2]: 'c' = with a category, 'n' = without */
+        const char *fl = argv[2];
+        int n = (int) strlen(fl), i;
+        cif_tp *cif = NULL; cif_block_tp *blk = NULL; cif_loop_tp **loops = NULL;
+        UChar code[] = { 'b', 0 };
+        if (n < 1 || n > 40 || strspn(fl, "cn") != (size_t) n) { OUT("bad-op"); return; }
+        if (cif_create(&cif) != CIF_OK || cif_create_block(cif, code, &blk) != CIF_OK) { OUT("setup-failed"); goto aldone; }
+        for (i = 0; i < n; i++) {
+            char b[24]; UChar nm[24], cat[24], *names[2]; int j; cif_loop_tp *lp = NULL;
+            snprintf(b, sizeof b, "_l%d.x", i); for (j = 0; b[j]; j++) nm[j] = (UChar) b[j]; nm[j] = 0;
+            snprintf(b, sizeof b, "cat%d", i); for (j = 0; b[j]; j++) cat[j] = (UChar) b[j]; cat[j] = 0;
+            names[0] = nm; names[1] = NULL;
+            if (cif_container_create_loop(blk, fl[i] == 'c' ? cat : NULL, names, &lp) != CIF_OK) { OUT("setup-failed"); goto aldone; }
+            cif_loop_free(lp);
+        }
+        verif_arm(0, atol(argv[3]));
+        ARM(); rc = cif_container_get_all_loops(blk, &loops); DISARM();
+        summary(rc);
+        if (rc == CIF_OK) {
+            if (!loops) OUT(" !NOLOOPS");
+            else {
+                for (i = 0; loops[i]; i++) { UChar *c = NULL; if (cif_loop_get_category(loops[i], &c) != CIF_OK) OUT(" !LOOPUSE%d", i); free(c); cif_loop_free(loops[i]); }
+                if (i != n) OUT(" !LOOPCOUNT%d", i);
+                free(loops);
+            }
+        } else if (loops) OUT(" !LOOPSSET");
+        /* "the same call succeeds when repeated with memory available" */
+        if (rc != CIF_OK) { loops = NULL; if (cif_container_get_all_loops(blk, &loops) != CIF_OK || !loops) OUT(" !RETRY"); else { for (i = 0; loops[i]; i++) cif_loop_free(loops[i]); free(loops); } }
+      aldone:
+        if (blk) cif_container_free(blk);
+        if (cif) cif_destroy(cif);
     } else if (argc == 4 && !strcmp(argv[1], "loophdr")) {
         /* parse_loop() of parser.c, syntax-only (container == NULL), on the text " _a0 … _a<n-1> _a0": n distinct names and a
            repetition of the first, which the error callback refuses — so parse_loop_header returns an error on every path
